@@ -249,8 +249,8 @@ func fxWrite(in *fxinst.Inst, key string, cols []fxinst.Col, rows []fxRow, varia
 	return in.W.WriteCSM(csm, variable)
 }
 
-// fxMisfire mirrors FStore.request_ok (negated): the `year == prevYear` test of WriteRecords fires for a
-// row although the command under construction belongs to another year.
+// fxMisfire recognises the request pattern on which the pre-49eddda WriteRecords merged a row into a command of another
+// year (`prevYear` was never updated; class prevyear-misfire, now fixed). Used for the input-distribution tags only.
 func fxMisfire(tfs int64, rows []fxRow) bool {
 	if len(rows) == 0 {
 		return false
@@ -394,13 +394,11 @@ func c08Run(raw json.RawMessage) (res Result, err error) {
 		switch {
 		case requeried:
 			res.Class = "timeframe-requeried-as-other"
-		case misfire:
-			res.Class = "prevyear-misfire"
 		case jan1Daily:
 			res.Class = "daily-jan1-index0"
 		}
 	}
-	res.InDomain = nrows > 0 && in.Create == 0 && !requeried && !misfire && !jan1Daily
+	res.InDomain = nrows > 0 && in.Create == 0 && !requeried && !jan1Daily
 	res.Tags = []string{"tf:" + in.TF, fmt.Sprintf("cols=%d", len(in.Cols)), fmt.Sprintf("reqs=%d", len(in.Reqs)),
 		fmt.Sprintf("rows=%d", bucket(nrows)), fmt.Sprintf("years=%d", len(yearsSeen)), fmt.Sprintf("code=%d", obs.Code)}
 	for _, c := range in.Cols {
@@ -413,7 +411,7 @@ func c08Run(raw json.RawMessage) (res Result, err error) {
 		res.Tags = append(res.Tags, "daily-jan1")
 	}
 	if misfire {
-		res.Tags = append(res.Tags, "prevyear-misfire")
+		res.Tags = append(res.Tags, "prevyear-pattern") // the pre-49eddda misfire pattern (class prevyear-misfire, fixed)
 	}
 	if in.Create != 0 {
 		res.Tags = append(res.Tags, "explicit-create")
